@@ -4,6 +4,7 @@ P == INSTANCE Pec
 
 (* checked once, before the state space is explored *)
 ASSUME KnownAnswersHold == P!KnownAnswers
+ASSUME TableLitIsTable == \A x \in 0..255 : P!TableLit[x + 1] = P!FeedByte(0, x)
 ASSUME TableIsLinear == \A r \in 0..255 : \A b \in 0..255 : P!FeedByte(r, b) = P!Table[r ^^ b]
 (* "last byte = PEC of the rest"  <=>  "CRC of the whole packet is zero" *)
 ASSUME ZeroIffEqual == \A r \in 0..255 : \A c \in 0..255 : (P!FeedByte(r, c) = 0) <=> (r = c)
